@@ -125,8 +125,9 @@ pub(crate) fn remove_or_compress_too_old_logfiles_impl(
             #[cfg(feature = "compress")]
             {
                 // compress, if not yet compressed
-                if let Some(extension) = file.extension() {
-                    if extension != "gz" {
+                // (files without suffix might have no extension, but must be compressed as well)
+                if file.extension().map_or(true, |extension| extension != "gz") {
+                    {
                         let mut compressed_file = file.clone();
                         match compressed_file.extension() {
                             Some(oss) => {
